@@ -276,6 +276,15 @@ def addNested (a b : List (Tensor α)) : Except Err (List (Tensor α)) :=
   if a.length ≠ b.length then .error .shape else
   L.mapM' (fun p => add p.1 p.2) (a.zip b)
 
+/-- the `Data::Nested` arms of `sub_inplace` / `mul_inplace` (added by the repair of D17) -/
+def subNested (a b : List (Tensor α)) : Except Err (List (Tensor α)) :=
+  if a.length ≠ b.length then .error .shape else
+  L.mapM' (fun p => sub p.1 p.2) (a.zip b)
+
+def mulNested (a b : List (Tensor α)) : Except Err (List (Tensor α)) :=
+  if a.length ≠ b.length then .error .shape else
+  L.mapM' (fun p => mul p.1 p.2) (a.zip b)
+
 def addNestedOpt (a b : List (Option (Tensor α))) : Except Err (List (Option (Tensor α))) :=
   if a.length ≠ b.length then .error .shape else
   L.mapM' (fun p => match p.1, p.2 with
